@@ -326,6 +326,15 @@ Definition flip_gene (g : gene) : gene :=
   | GFloat _ => GFloat (if nb then 1 else 0)
   end.
 
+Definition same_type (g h : gene) : Prop :=
+  match g, h with GInt _, GInt _ => True | GBool _, GBool _ => True | GFloat _, GFloat _ => True | _, _ => False end.
+
+(* a bit: 0 / 1 of one of the three types; its complement *)
+Definition is_bit (g : gene) : Prop :=
+  match g with GInt z => z = 0 \/ z = 1 | GBool _ => True | GFloat z => z = 0 \/ z = 1 end.
+Definition complement (g : gene) : gene :=
+  match g with GInt z => GInt (1 - z) | GBool b => GBool (negb b) | GFloat z => GFloat (1 - z) end.
+
 (* mutation.py:124-142 *)
 Definition mutFlipBit (individual : list gene) (indpb : Q) : M (list gene) :=
   for_each (py_range (zlen individual))
@@ -346,6 +355,12 @@ Definition expand_bound (b : bound) (size : Z) : M (list Z) :=
   | BScalar z => ret (repeat z (Z.to_nat size))
   | BSeq l => if zlen l <? size then raise IndexError else ret l
   end.
+
+(* the bound that applies to gene i; a sequence must cover the individual *)
+Definition bound_at (b : bound) (i : nat) : Z :=
+  match b with BScalar z => z | BSeq l => nth i l 0 end.
+Definition bound_covers (b : bound) (n : nat) : Prop :=
+  match b with BScalar _ => True | BSeq l => (n <= length l)%nat end.
 
 (* mutation.py:145-173 *)
 Definition mutUniformInt (individual : list Z) (low up : bound) (indpb : Q) : M (list Z) :=
